@@ -40,7 +40,15 @@ def payloadsOf (j : Json) : Option Payloads := do
     let k ← asNat? (← a[1]?)
     let b ← asNat? (← a[2]?)
     pure (p.toList, k, b))
-  pure (Payloads.ofLists bench run)
+  -- profile data file: the JSON columns that `json.loads` accepts (null: the loader does not check)
+  let prof : Option (Text → Bool) :=
+    match j.getObjVal? "profile_json" with
+    | .ok (Json.arr a) =>
+        let l := a.toList.filterMap (fun e => match e.getStr? with | .ok s => some s.toList | _ => none)
+        some (fun js => l.contains js)
+    | .ok (Json.str "any") => some (fun _ => true)
+    | _ => none
+  pure { Payloads.ofLists bench run with profile := prof }
 
 def natArr (l : List Nat) : Json := Json.arr (l.map (fun (n : Nat) => Json.num n)).toArray
 
